@@ -12,7 +12,9 @@ def groups(tier):
     G += [Group('split.indices.n<=16', 'shamir', 'C10/gf.c', entry='h_split_indices', defines=['N_MAX=16'], unwind=18, unwind_by={'crypto__build_exp_table': 513, 'crypto__build_log_table': 257, 'crypto__Shamir__split#1': 33}, kind='bounded',
                 bound='share_count <= 16, threshold 1', timeout=600,
                 clause='split terminates and yields n shares with distinct non-zero indices 1..n'),
-          Group('split.indices.n=255', 'shamir', 'C10/gf.c', entry='h_split_indices', defines=['N_MIN=255', 'CXX_VEC_CAP=300'], unwind=258, unwind_by={'crypto__build_exp_table': 513, 'crypto__Shamir__split#1': 33}, kind='bounded',
-                bound='share_count = 255 exactly, threshold 1', timeout=900,
-                clause='split terminates for the largest share counts, including n = 255')]
+          Group('split.contract', 'shamir', 'C10/gf.c', entry='h_split_contract', enforce='crypto__Shamir__split', loop_contracts=True,
+                replace=['vec_crypto__ShamirShare_push_back', 'vec_u8_push_back', 'crypto__evaluate_polynomial'],
+                unwind=20, unwind_by={'crypto__build_exp_table': 513, 'crypto__build_log_table': 257}, kind='unbounded', timeout=600,
+                clause='split terminates (loop variants) for every threshold and share count 0..255, yields share_count shares, '
+                       'and raises invalid_argument exactly for t = 0, n = 0 or t > n')]
     return G
